@@ -178,6 +178,11 @@ func (x *c10World) events() []string {
 	deleting := kit.Get(p, "metadata", "deletionTimestamp") != nil
 	if !deleting {
 		ev = append(ev, "relabel", "delete-background", "delete-foreground", "delete-orphan")
+		if !x.done["replace"] && !kit.HasFinalizer(p, c10Fin) {
+			// deleted and re-created under the same name (new UID) behind the controller's back, in the window in
+			// which the finalizer has not been added yet (the add then starts from a stale copy of the old object)
+			ev = append(ev, "replace")
+		}
 		if !x.done["edit-spec"] && x.cfg.Rolling {
 			ev = append(ev, "edit-spec")
 		}
@@ -228,6 +233,16 @@ func (x *c10World) apply(ev string) {
 		p := kit.Labels(kit.Obj(kit.Thing, "n1", "p"), "app", "x")
 		kit.Field(p, "1", "spec", "template", "v")
 		x.Sim.Seed(p)
+	case "replace":
+		x.done["replace"] = true
+		old := x.parent()
+		x.Sim.Remove(kit.Thing, "n1", "p")
+		np := kit.Obj(kit.Thing, "n1", "p")
+		if l := kit.Get(old, "metadata", "labels"); l != nil {
+			np["metadata"].(kit.M)["labels"] = kit.Copy(kit.M{"l": l})["l"]
+		}
+		np["spec"] = kit.Copy(kit.M{"s": old["spec"]})["s"]
+		x.Sim.Seed(np)
 	case "relabel":
 		x.Sim.Edit(kit.Thing, "n1", "p", func(o map[string]interface{}) {
 			if kit.Str(o, "metadata", "labels", "app") == "x" {
@@ -310,7 +325,10 @@ func (x *c10World) sync(fault string) {
 	var createdBare []string
 	x.Sim.OnApplied = func(r *sim.Request) {
 		if r.Kind == kit.Leaf && r.Verb == "create" {
-			finAtCreate[r.Seq] = kit.HasFinalizer(x.Sim.GetLocked(kit.Thing, "n1", "p"), c10Fin)
+			live := x.Sim.GetLocked(kit.Thing, "n1", "p")
+			// (a child created from a stale cache for a previous incarnation of the parent - its controller
+			// reference names a UID that is gone - is the garbage collector's business, not F1's)
+			finAtCreate[r.Seq] = kit.HasFinalizer(live, c10Fin) || (live != nil && kit.ControllerUID(r.Body) != kit.UID(live))
 		}
 	}
 	faulted := false
@@ -435,6 +453,9 @@ func (x *c10World) sync(fault string) {
 		// its ControllerRevision was kept) says the hook is not done, whatever the other revisions say. (A
 		// revision that lost its last claim in this sync is gone, and its answer with it.)
 		for _, rev := range x.Sim.All(world.RevisionKind) {
+			if lp := x.parent(); lp == nil || kit.ControllerUID(rev) != kit.UID(lp) {
+				continue // a record left behind by a previous incarnation of the parent
+			}
 			var patch kit.M
 			switch pp := rev["parentPatch"].(type) {
 			case kit.M:
